@@ -446,3 +446,44 @@ def names_in(expr) -> set:
     if expr is not None:
         walk(expr, frozenset())
     return out
+
+
+def guard_names(fnode) -> set:
+    """Names that occur in a branch condition somewhere in the function."""
+    out = set()
+    for n in ast.walk(fnode):
+        if isinstance(n, (ast.If, ast.While, ast.IfExp)):
+            out |= names_in(n.test)
+        elif isinstance(n, ast.Assert):
+            out |= names_in(n.test)
+    return out
+
+
+def make_opaque(fnode, relevant):
+    """Opaque-statement predicate for ``build_cfg``: a compound statement may be collapsed
+    into one node when nothing inside it is relevant to the running rule *and* it assigns no
+    name read by a branch condition that guards something relevant (collapsing it would
+    forget a constant the path exploration relies on at that branch)."""
+
+    def has_relevant(stmt):
+        for n in ast.walk(stmt):
+            if relevant(n):
+                return True
+        return False
+
+    guards = set()
+    for n in ast.walk(fnode):
+        if isinstance(n, (ast.If, ast.While)) and has_relevant(n):
+            guards |= names_in(n.test)
+        elif isinstance(n, ast.IfExp):
+            guards |= names_in(n.test)
+    cache = {}
+
+    def opaque(stmt):
+        r = cache.get(id(stmt))
+        if r is None:
+            r = not has_relevant(stmt) and not (all_assigned_names(stmt) & guards)
+            cache[id(stmt)] = r
+        return r
+
+    return opaque
